@@ -269,6 +269,25 @@ def check_C15(chk, tier, seed):
                 data = SAMPLE_DATA[ty or "u32"]
                 cases.append(f"X {did} {xb(one_avp_frame(5000, wire_v, data))}")
                 expect.append(("scope", ty, f"{TY_XML_NAME[ta]}/{TY_XML_NAME[tb]} twins", (sa, sb), wire_v))
+    # two definitions carrying the SAME NAME under different keys, with different types (same document, or the second added
+    # later with add_avp): a wire AVP is typed by the entry of its own (code, vendor), whatever other entry shares its name
+    for (ta, tb) in pairs + [("utf", "u32"), ("u64", "oct")]:
+        for (ka, kb) in (((5000, None), (5001, None)), ((5000, None), (5000, 10415)), ((5000, 10415), (6000, 10415)), ((5001, None), (5000, None))):
+            for how in ("same-doc", "add"):
+                did = f"t{k}"
+                k += 1
+                da = dict(code=ka[0], vendor=ka[1], name=b"Shared", tyname=TY_XML_NAME[ta].encode(), must=None)
+                db = dict(code=kb[0], vendor=kb[1], name=b"Shared", tyname=TY_XML_NAME[tb].encode(), must=b"M")
+                if how == "same-doc":
+                    apps = [dict(name=b"GenApp", id=4, cmds=[], avps=[da, db])]
+                    ops = [load_toks(gen_xml(apps), apps)]
+                else:
+                    apps = [dict(name=b"GenApp", id=4, cmds=[], avps=[da])]
+                    ops = [load_toks(gen_xml(apps), apps), add_toks(dict(code=kb[0], vendor=kb[1], name=b"Shared", ty=tb, m=True))]
+                prelude.append(dict_line(did, ops))
+                for (kc, ty) in ((ka, ta), (kb, tb)):
+                    cases.append(f"X {did} {xb(one_avp_frame(kc[0], kc[1], SAMPLE_DATA[ty]))}")
+                    expect.append(("scope", ty, f"{TY_XML_NAME[ta]}/{TY_XML_NAME[tb]} sharing one name ({how})", (ka, kb), kc[1]))
     # codes that a lossy table would fold onto a defined one: c + k*1024, c + 2^16, c + 2^20, c + 2^24, c + 2^31, c with its
     # octets swapped - none of them is defined, each must be refused; and the defined code itself still decodes
     did = f"t{k}"
